@@ -558,7 +558,7 @@ where
     codec::<C>(ctx, &e, &ops);
 }
 
-fn decode_all<C: W>(ctx: &mut Ctx, e: &Env, class: &str, b: &[u8])
+pub(crate) fn decode_all<C: W>(ctx: &mut Ctx, e: &Env, class: &str, b: &[u8])
 where
     <C::A as UncompressedEncoding>::Uncompressed: AsRef<[u8]> + AsMut<[u8]>,
 {
@@ -589,6 +589,23 @@ where
                     crate::fail(ctx, &format!("C11:{t}:dec-subgroup {h}"), "checked compressed decoder accepts a point outside the prime-order subgroup", json!({"bytes": h}));
                 }
             }
+        }
+        // the same promises for the checked decoder of the PROJECTIVE type (its own code path in
+        // g1.rs / g2.rs; the transcript reads proof points through it)
+        if let Some(pp) = dp {
+            let p = pp.to_affine();
+            let pw = a_wp::<C>(&p);
+            let canon = pp.to_bytes().as_ref() == b;
+            let on = big::w_on_curve(&e.f, &e.a, &e.b, &pw);
+            if !canon || !on || dpu != dp {
+                crate::fail(ctx, &format!("C11:{t}:dec-projective {h}"), "checked compressed decoder of the projective type accepts an off-curve or non-canonical encoding", json!({"bytes": h, "decoded": big::tok_w(&pw), "reencoded": hex_bytes(pp.to_bytes().as_ref())}));
+            }
+            if (C::TAG == "g1" || C::TAG == "g2") && big::w_mul(&e.f, &e.a, &C::order(), &pw).is_some() {
+                crate::fail(ctx, &format!("C11:{t}:dec-projective-subgroup {h}"), "checked compressed decoder of the projective type accepts a point outside the prime-order subgroup", json!({"bytes": h, "decoded": big::tok_w(&pw)}));
+            }
+        }
+        if d.is_some() != dp.is_some() || du.is_some() != dpu.is_some() {
+            crate::fail(ctx, &format!("C11:{t}:dec-affine-vs-projective {h}"), "the affine and the projective decoder disagree on acceptance of one byte string", json!({"bytes": h, "affine": d.is_some(), "projective": dp.is_some(), "affine_unchecked": du.is_some(), "projective_unchecked": dpu.is_some()}));
         }
     }
     let mut urepr = <C::A as UncompressedEncoding>::Uncompressed::default();
@@ -720,4 +737,5 @@ where
         if C::JAC { b[0] = (b[0] & 0x0f) | if i % 2 == 0 { 0x80 | (b[1] & 0x20) } else { 0 } } else { let l = b.len(); b[l - 1] &= 0x9f; }
         decode_all::<C>(ctx, e, "random-bytes-plausible", &b);
     }
+    crate::extra::codec_extra::<C>(ctx, e, ops);
 }
